@@ -158,7 +158,7 @@ def main : IO Unit := do
                  ("erf", erf), ("erfc", erfc), ("erfInv", erfInv), ("bessI0", bessI0), ("bessI1", bessI1)] do
     for x in [nan, inf, negInf, 0.0, -0.0, -1.0, -2.0, 1.0, 2.0] do
       IO.println ("special " ++ line n [x] (f x))
-  for (x, a) in [(0.0, 1.0), (inf, 1.0), (1.0, 0.0), (-1.0, 1.0), (nan, 1.0), (1.0, nan), (1e9, 3.0)] do
+  for (x, a) in [(0.0, 1.0), (0.0, 0.0), (0.0, nan), (inf, 1.0), (1.0, 0.0), (-1.0, 1.0), (nan, 1.0), (1.0, nan), (1e9, 3.0)] do
     IO.println ("special " ++ line "incGamma" [x, a] (incGamma x a))
   for x in [0.0, 1.0, -0.1, 1.1, nan] do
     IO.println ("special " ++ line "incBeta" [x, 2.0, 3.0] (incBeta x 2.0 3.0 (lnBeta 2.0 3.0)))
